@@ -86,6 +86,7 @@ type Ctx struct {
 	keepTrace bool
 	lastTrace []simrt.Step
 	schedPtrs []schedPtr
+	execN     int // library calls made by this case so far (seeds the map order of each)
 }
 
 func newGenCtx(prop string, seed uint64, st *Stats) *Ctx {
